@@ -1,10 +1,11 @@
 """Per-function verification driver: enumerate paths with the oracle, collect obligations, discharge them."""
 import ast
+import os
 import time
 import traceback
 import z3
 from .values import *
-from .engine import Engine, Oracle, State, Frame, HObj, HList, HDict, Obligation
+from .engine import Engine, Oracle, State, Frame, HObj, HList, HSeqList, HDict, Obligation
 from .exprs import ExprMixin
 from .calls import CallMixin
 from .bcalls import BuiltinMixin
@@ -166,6 +167,7 @@ class Executor(ExternMixin, ExprMixin, CallMixin, BuiltinMixin, StmtMixin, Engin
         for nm, r in self.clauses(c.get('requires', [])):
             self.assume(self.truth(self.ev_spec(r, env)))
         st.old_heap = st.snapshot_heap()
+        st.entry_heap = st.old_heap      # modular calls swap st.old_heap temporarily; the frame check needs the state at entry
         st.old_env = dict(env)
         st.old_ghost = dict(st.ghost)
         st.inputs = dict(env)
@@ -189,6 +191,7 @@ class Executor(ExternMixin, ExprMixin, CallMixin, BuiltinMixin, StmtMixin, Engin
             penv = dict(old_env)
             for nm, r in self.clauses(c.get('exc_ensures', [])):
                 self.oblige(f'exc-post#{nm}', self.truth(self.ev_spec(r, penv)), fn)
+            self.check_frame(c, True, fn, old_env)
             return outcome
         if outcome[0] == 'raise':
             exc = outcome[1]
@@ -205,6 +208,7 @@ class Executor(ExternMixin, ExprMixin, CallMixin, BuiltinMixin, StmtMixin, Engin
             penv = dict(old_env)
             for nm, r in self.clauses(c.get('exc_ensures', [])):
                 self.oblige(f'exc-post#{nm}', self.truth(self.ev_spec(r, penv)), fn)
+            self.check_frame(c, True, fn, old_env)
         else:
             res = outcome[1]
             penv = dict(old_env)
@@ -216,7 +220,154 @@ class Executor(ExternMixin, ExprMixin, CallMixin, BuiltinMixin, StmtMixin, Engin
             if is_method and c.get('inv_preserved') and env.get(params and 'self' or 'self') is not None:
                 for i, r in enumerate(c.get('self_inv', self.models.get(cls_for_self, {}).get('inv', []))):
                     self.oblige(f'inv-exit#{i}', self.truth(self.ev_spec(r, penv)), fn)
+            self.check_frame(c, False, fn, old_env)
         return outcome
+
+    # ------------------------------------------------------------------ frame condition
+    def check_frame(self, c, exceptional, fn, old_env):
+        """`modifies` (normal exits) / `exc_modifies` (exceptional exits) of a VERIFIED contract are proof obligations: every
+        object that existed at entry has, at exit, the field values / elements it had at entry, except the listed locations
+        (and the list / dict objects those locations held at entry).  One obligation per exit path (stable key)."""
+        locs = c.get('exc_modifies') if exceptional else c.get('modifies')
+        if locs is None and os.environ.get('PYVC_FRAME_PROBE') and not c.get('lemma'):
+            locs = []
+        if locs is None or c.get('axiom'):
+            return
+        st = self.st
+        entry = st.entry_heap
+        allowed_fields, allowed_ids = set(), set()
+
+        def reach(v):
+            if v.k in ('list', 'dict') and v.t not in allowed_ids:
+                allowed_ids.add(v.t)
+                h = entry.get(v.t)
+                if isinstance(h, HDict):
+                    for x in list(h.d.values()) + [x for _, x in h.sym]:
+                        reach(x)
+                elif isinstance(h, HList) and not isinstance(h, HSeqList):
+                    for x in h.items:
+                        reach(x)
+            elif v.k == 'tuple':
+                for x in v.t:
+                    reach(x)
+        def owners(base):
+            # objects (entry-heap ids) a base path denotes; '*' stands for every field the object had at entry
+            if '*' not in base:
+                try:
+                    o = self.ev_spec('old(' + base + ')', old_env)
+                except (PyRaise, Unsupported, KeyError):
+                    return []       # the owner did not exist at entry: objects created by the call are not constrained
+                return [o.t] if o.k == 'obj' and o.t in entry else []
+            head, _, rest = base.partition('.*')
+            out = []
+            for oid in owners(head):
+                for v in entry[oid].f.values():
+                    vs = [v]
+                    if v.k == 'list' and isinstance(entry.get(v.t), HList) and not isinstance(entry.get(v.t), HSeqList):
+                        vs = entry[v.t].items
+                    for x in vs:
+                        if x.k == 'obj' and x.t in entry:
+                            if rest:
+                                raise Unsupported('frame location: only a trailing .* or one .*. level is supported')
+                            out.append(x.t)
+            return out
+        wild_objs = set()
+        for loc in locs:
+            base, _, field = loc.rpartition('.')
+            for oid in owners(base):
+                if field == '*':
+                    wild_objs.add(oid)
+                    for v in entry[oid].f.values():
+                        reach(v)
+                    continue
+                allowed_fields.add((oid, field))
+                if field in entry[oid].f:
+                    reach(entry[oid].f[field])
+        goals, where = [], []
+
+        def same_container(h0, h1, what):
+            if h0 is None or h1 is None:
+                goals.append(z3.BoolVal(False)); where.append(what)
+            elif isinstance(h0, HSeqList):
+                if not isinstance(h1, HSeqList):
+                    goals.append(z3.BoolVal(False)); where.append(f'list {what}')
+                elif not h0.seq.eq(h1.seq):
+                    goals.append(h0.seq == h1.seq); where.append(f'list {what}')
+            elif isinstance(h0, HList):
+                if not isinstance(h1, HList) or isinstance(h1, HSeqList) or len(h0.items) != len(h1.items):
+                    goals.append(z3.BoolVal(False)); where.append(f'list {what} (length)')
+                else:
+                    for i, (x, y) in enumerate(zip(h0.items, h1.items)):
+                        same(x, y, f'list {what}[{i}]')
+            elif isinstance(h0, HDict):
+                if not isinstance(h1, HDict) or set(h0.d) != set(h1.d) or len(h0.sym) != len(h1.sym):
+                    goals.append(z3.BoolVal(False)); where.append(f'dict {what} (keys)')
+                else:
+                    for kk in h0.d:
+                        same(h0.d[kk], h1.d[kk], f'dict {what}[{kk}]')
+                    for (k0, v0), (k1, v1) in zip(h0.sym, h1.sym):
+                        same(k0, k1, f'dict {what} key'); same(v0, v1, f'dict {what} value')
+
+        def same(a, b, what):
+            if a is b:
+                return
+            if a.k in ('int', 'bool') and b.k in ('int', 'bool'):
+                g = (a.t == b.t) if a.k == b.k else (self.as_int(a) == self.as_int(b))
+            elif a.k in ('bytes', 'str', 'seq', 'const') and b.k in ('bytes', 'str', 'seq', 'const') and not (a.k == 'const' and b.k == 'const'):
+                try:
+                    g = self.as_seq(a) == self.as_seq(b)
+                except Unsupported:
+                    g = z3.BoolVal(False)
+            elif a.k != b.k:
+                g = z3.BoolVal(False)
+            elif a.k == 'const':
+                g = z3.BoolVal(type(a.t) is type(b.t) and a.t == b.t)
+            elif a.k in ('opq', 'ref'):
+                g = a.t == b.t
+            elif a.k == 'enumv':
+                g = z3.And(z3.BoolVal(a.t[0] == b.t[0]), a.t[1] == b.t[1])
+            elif a.k == 'tuple':
+                if len(a.t) != len(b.t):
+                    g = z3.BoolVal(False)
+                else:
+                    for i, (x, y) in enumerate(zip(a.t, b.t)):
+                        same(x, y, f'{what}[{i}]')
+                    return
+            elif a.k == 'none':
+                return
+            elif a.k in ('list', 'dict') and a.t != b.t:
+                # rebound to another container: unobservable when it holds what the old one held at entry
+                same_container(entry.get(a.t), st.heap.get(b.t), what)
+                return
+            elif a.k in ('obj', 'list', 'dict', 'cls', 'enum'):
+                g = z3.BoolVal(a.t == b.t)
+            else:
+                g = z3.BoolVal(a.t is b.t)
+            if z3.is_true(z3.simplify(g)) if z3.is_expr(g) else g:
+                return
+            goals.append(g)
+            where.append(what)
+        for oid, h0 in entry.items():
+            h1 = st.heap.get(oid)
+            if h1 is None:
+                continue
+            if isinstance(h0, HObj):
+                for f in sorted(set(h0.f) | set(h1.f)):
+                    if (oid, f) in allowed_fields or oid in wild_objs:
+                        continue
+                    what = f'{h0.cls}.{f}'
+                    if f not in h0.f or f not in h1.f:
+                        goals.append(z3.BoolVal(False))
+                        where.append(what + (' (created)' if f in h1.f else ' (deleted)'))
+                        continue
+                    same(h0.f[f], h1.f[f], what)
+            elif oid in allowed_ids:
+                continue
+            else:
+                same_container(h0, h1, f'#{oid}')
+        goal = z3.And(*goals) if goals else z3.BoolVal(True)
+        self.oblige('exc-frame' if exceptional else 'frame', goal, fn,
+                    info=('locations written: ' + ', '.join(where)) if where else '')
 
     def ev_old(self, text, old_env):
         return self.ev_spec('old(' + text + ')', old_env)
